@@ -72,6 +72,8 @@ def differs(a, b, rel=REL, ab=ABS):
 def compare(rec, clause, name_a, name_b, spec_a, spec_b, table, va, vb, info, rel=REL, collect_case=None):
     """engine-vs-engine comparison of two evaluated model functions on the same table."""
     import numpy as np
+    if va is None or vb is None:
+        return      # the evaluation raised: already reported by the Evaluator
     m = differs(va, vb, rel)
     rows_bad = m.any(axis=1)
     per_pat = {}
@@ -124,7 +126,17 @@ class Evaluator:
     def __call__(self, spec):
         k = json.dumps(spec, sort_keys=True, default=list)
         if k not in self.memo:
-            self.memo[k] = B.eval_spec(spec, self.table)
+            try:
+                self.memo[k] = B.eval_spec(spec, self.table)
+            except Exception as e:  # a valid specification must evaluate
+                if isinstance(e, RuntimeError):
+                    self.rec.retire = True
+                self.memo[k] = None
+                f = spec.get('forms', {})
+                grp = self.table.describe_group(0)
+                self.rec.violation(f'{ID}|model-raises-{type(e).__name__}|{spec["model"]}[{f.get("syntax", "obj")}]|'
+                                   f'{spec["kind"]}', f'{spec["model"]} raised {type(e).__name__}: {str(e)[:300]} for {spec}',
+                                   dict(part='raise', spec=spec, group=grp), observed=repr(e)[:300])
             self.rec.count('engine_calls')
         return self.memo[k]
 
@@ -244,7 +256,19 @@ def eval_generating(alts, alone, nests, mus, table, syntax, avform, uform='betav
 def check_generating(alph, alts, alone, nests, mus, table, rec, syntax='obj', avform='var', uform='betavar', pform='float'):
     import numpy as np
     J = len(alts)
-    Gv, grad, T = eval_generating(alts, alone, nests, mus, table, syntax, avform, uform, pform)
+    try:
+        Gv, grad, T = eval_generating(alts, alone, nests, mus, table, syntax, avform, uform, pform)
+    except Exception as e:
+        if isinstance(e, RuntimeError):
+            rec.retire = True
+        rec.violation(f'{ID}|generating-function-raises-{type(e).__name__}|alone={"yes" if alone else "no"}|nests-as-{syntax}',
+                      f'get_mev_generating_for_nested / get_mev_for_nested raised {type(e).__name__}: {str(e)[:300]} '
+                      f'(alone={list(alone)} nests={[list(n) for n in nests]} mus={list(mus)})',
+                      dict(part='gen', alts=list(alts), alone=list(alone), nests=[list(n) for n in nests], mus=list(mus),
+                           group=table.describe_group(0), syntax=syntax, avform=avform, uform=uform, pform=pform),
+                      observed=repr(e)[:300])
+        rec.case(None, ('gen-raised', type(e).__name__), outcome=('gen', 'raised'))
+        return
     rec.count('engine_calls', 1 + J)
     rec.observe(('gen', hashlib.sha1(Gv.tobytes() + grad.tobytes() + T.tobytes()).hexdigest()[:16]))
     info = dict(shape=shape(alone, nests), alone=list(alone), nests=[list(n) for n in nests], mus=list(mus),
@@ -396,6 +420,11 @@ def replay(case):
         table = B.Table(case['alts'], [grp['u']], [grp['avail']])
         check_generating(None, case['alts'], case['alone'], case['nests'], case['mus'], table, rec, case['syntax'],
                          case['avform'], case['uform'], case['pform'])
+        return rec.violations
+    if case['part'] == 'raise':
+        grp = case['group']
+        ev = Evaluator(B.Table(case['spec']['alts'], [grp['u']], [grp['avail']]), rec)
+        ev(case['spec'])
         return rec.violations
     grp = case['group']
     alts = case['a']['alts']
